@@ -206,7 +206,7 @@ func FindNode(n Node, path string) (Node, error) {
 		if mod.Kind() == "submodule" {
 			m := mod.Modules.Modules[mod.BelongsTo.Name]
 			if m == nil {
-				return nil, fmt.Errorf("%s: unknown module %s", m.Name, mod.BelongsTo.Name)
+				return nil, fmt.Errorf("%s: unknown module %s", mod.Name, mod.BelongsTo.Name)
 			}
 			if prefix == "" || prefix == mod.BelongsTo.Prefix.Name {
 				goto processing
